@@ -11,9 +11,9 @@ theorem evalF_bin (env : Env) (b : BinOp) (l r : Expr) (vl vr : Val) (hl : evalF
 theorem evalF_opd (env : Env) (od : Opd) : evalF env (.opd od) = .ok (.raw od) := by
   simp only [evalF]
 
-theorem hasMeta_noUnit (M : Mesh) (g : CF) (t : Ty) (hg : Good M g) (h1 : g.nvdim = t.nv) (h2 : g.vdims = t.vdims)
-    (h3 : g.vmap = t.vmap) (h4 : g.unit = none) : HasMeta M g t.noUnit :=
-  ⟨hg, h1, h2, h3, h4⟩
+theorem hasMeta_res (M : Mesh) (g : CF) (t : Ty) (k : Kind) (hg : Good M g) (h1 : g.nvdim = t.nv)
+    (h2 : g.vdims = t.vdims) (h3 : g.vmap = t.vmap) (h4 : g.unit = none) (h5 : g.kind = k) : HasMeta M g (t.res k) :=
+  ⟨hg, h1, h2, h3, h4, h5⟩
 
 theorem rawFits_cast (M : Mesh) (f : CF) (t : Ty) (od : Opd) (hm : f.mesh = M) (hn : f.nvdim = t.nv)
     (h : RawFits M.n t.nv od) : RawFits f.mesh.n f.nvdim od := by
@@ -21,26 +21,24 @@ theorem rawFits_cast (M : Mesh) (f : CF) (t : Ty) (od : Opd) (hm : f.mesh = M) (
 
 /-- **soundness of the typing judgment**: a well-typed tree over `Good` fields on a mesh `M`
 evaluates to a field, that field is `Good` on `M` and carries the predicted component
-count, labels, mapping and unit -/
+count, labels, mapping, unit and dtype kind -/
 theorem hasTy_sound (env : Env) (M : Mesh) (hM : MeshOk M) (hgood : ∀ f ∈ env.fields, Good M f)
     (e : Expr) (t : Ty) (h : HasTy env M e t) :
     ∃ g, evalF env e = .ok (.fld g) ∧ HasMeta M g t := by
   induction h with
   | leaf k f hk =>
-    exact ⟨f, by simp only [evalF, hk], hgood f (List.mem_of_getElem? hk), rfl, rfl, rfl, rfl⟩
+    exact ⟨f, by simp only [evalF, hk], hgood f (List.mem_of_getElem? hk), rfl, rfl, rfl, rfl, rfl⟩
   | un u e t _ ih =>
-    obtain ⟨f, hf, hfg, h1, h2, h3, h4⟩ := ih
-    obtain ⟨g, hg, hgg, g1, g2, g3, g4⟩ := applyUn_accepts env u M hM f hfg
-    refine ⟨g, by simp only [evalF, hf, hg], hgg, ?_⟩
-    by_cases hu : unKeepsUnit u = true
-    · rw [if_pos hu] at g4 ⊢
-      exact ⟨by rw [g1, h1], by rw [g2, h2], by rw [g3, h3], by rw [g4, h4]⟩
-    · rw [if_neg hu] at g4 ⊢
-      exact hasMeta_noUnit M g t hgg (by rw [g1, h1]) (by rw [g2, h2]) (by rw [g3, h3]) g4 |>.2
+    obtain ⟨f, hf, hfg, h1, h2, h3, h4, h5⟩ := ih
+    obtain ⟨g, hg, hgg, g1, g2, g3, g4, g5⟩ := applyUn_accepts env u M hM f hfg
+    refine ⟨g, by simp only [evalF, hf, hg], hgg, by rw [g1, h1]; rfl, by rw [g2, h2]; rfl, by rw [g3, h3]; rfl, ?_, ?_⟩
+    · rw [g4, h4]; rfl
+    · rw [g5, h5]; rfl
   | arithFF b l r tl tr d hb _ _ hd ihl ihr =>
-    obtain ⟨f, hf, hfg, f1, f2, f3, _⟩ := ihl
-    obtain ⟨o, ho, hog, o1, o2, o3, _⟩ := ihr
-    obtain ⟨g, hg, hgg, g1, g2, g3, g4⟩ := applyBin_arith_ff env b hb M hM f o hfg hog d (by rw [f1, o1]; exact hd)
+    obtain ⟨f, hf, hfg, f1, f2, f3, _, f5⟩ := ihl
+    obtain ⟨o, ho, hog, o1, o2, o3, _, o5⟩ := ihr
+    obtain ⟨g, hg, hgg, g1, g2, g3, g4, g5⟩ :=
+      applyBin_arith_ff env b hb M hM f o hfg hog d (by rw [f1, o1]; exact hd)
     refine ⟨g, by rw [evalF_bin env b l r _ _ hf ho, hg], ?_⟩
     have hsrc : (metaSrc f o) = if tl.nv = 1 ∧ 1 < tr.nv then o else f := by
       unfold metaSrc; rw [f1, o1]
@@ -50,75 +48,77 @@ theorem hasTy_sound (env : Env) (M : Mesh) (hM : MeshOk M) (hgood : ∀ f ∈ en
       split
       · exact o1
       · exact f1
+    rw [f5, o5] at g5
     by_cases hc : tl.nv = 1 ∧ 1 < tr.nv
     · rw [if_pos hc] at g2 g3 hdv ⊢
-      exact hasMeta_noUnit M g tr hgg (by rw [g1, hdv]) (by rw [g2, o2]) (by rw [g3, o3]) g4
+      exact hasMeta_res M g tr _ hgg (by rw [g1, hdv]) (by rw [g2, o2]) (by rw [g3, o3]) g4 g5
     · rw [if_neg hc] at g2 g3 hdv ⊢
-      exact hasMeta_noUnit M g tl hgg (by rw [g1, hdv]) (by rw [g2, f2]) (by rw [g3, f3]) g4
+      exact hasMeta_res M g tl _ hgg (by rw [g1, hdv]) (by rw [g2, f2]) (by rw [g3, f3]) g4 g5
   | arithFR b l od t hb _ hfit ih =>
-    obtain ⟨f, hf, hfg, f1, f2, f3, _⟩ := ih
-    obtain ⟨g, hg, hgg, g1, g2, g3, g4⟩ :=
+    obtain ⟨f, hf, hfg, f1, f2, f3, _, f5⟩ := ih
+    obtain ⟨g, hg, hgg, g1, g2, g3, g4, g5⟩ :=
       applyBin_arith_fr env b od hb M f hfg (rawFits_cast M f t od hfg.2.2 f1 hfit)
     exact ⟨g, by rw [evalF_bin env b l _ _ _ hf (evalF_opd env od), hg],
-      hasMeta_noUnit M g t hgg (by rw [g1, f1]) (by rw [g2, f2]) (by rw [g3, f3]) g4⟩
+      hasMeta_res M g t _ hgg (by rw [g1, f1]) (by rw [g2, f2]) (by rw [g3, f3]) g4 (by rw [g5, f5])⟩
   | arithRF b od r t hb _ hfit ih =>
-    obtain ⟨f, hf, hfg, f1, f2, f3, _⟩ := ih
-    obtain ⟨g, hg, hgg, g1, g2, g3, g4⟩ :=
+    obtain ⟨f, hf, hfg, f1, f2, f3, _, f5⟩ := ih
+    obtain ⟨g, hg, hgg, g1, g2, g3, g4, g5⟩ :=
       applyBin_arith_rf env b hb M hM f hfg od (rawFits_cast M f t od hfg.2.2 f1 hfit)
     exact ⟨g, by rw [evalF_bin env b _ r _ _ (evalF_opd env od) hf, hg],
-      hasMeta_noUnit M g t hgg (by rw [g1, f1]) (by rw [g2, f2]) (by rw [g3, f3]) g4⟩
+      hasMeta_res M g t _ hgg (by rw [g1, f1]) (by rw [g2, f2]) (by rw [g3, f3]) g4 (by rw [g5, f5])⟩
   | dotFF l r tl tr _ _ hn ihl ihr =>
-    obtain ⟨f, hf, hfg, f1, _⟩ := ihl
-    obtain ⟨o, ho, hog, o1, _⟩ := ihr
-    obtain ⟨g, hg, hgg, g1, g2, g3, g4, _⟩ := dotOp_fld_accepts M hM f o hfg hog (by rw [f1, o1, hn])
-    refine ⟨g, ?_, hgg, g1, g2, g3, g4⟩
+    obtain ⟨f, hf, hfg, f1, _, _, _, f5⟩ := ihl
+    obtain ⟨o, ho, hog, o1, _, _, _, o5⟩ := ihr
+    obtain ⟨g, hg, hgg, g1, g2, g3, g4, g5⟩ := dotOp_fld_accepts M hM f o hfg hog (by rw [f1, o1, hn])
+    refine ⟨g, ?_, hgg, g1, g2, g3, g4, by rw [g5, f5, o5]⟩
     rw [evalF_bin env .dot l r _ _ hf ho]
     simp only [applyBin, forwardOp, hg]
   | dotFR l a k np t _ hfit ih =>
-    obtain ⟨f, hf, hfg, f1, _⟩ := ih
-    obtain ⟨g, hg, hgg, g1, g2, g3, g4, _⟩ :=
+    obtain ⟨f, hf, hfg, f1, _, _, _, f5⟩ := ih
+    obtain ⟨g, hg, hgg, g1, g2, g3, g4, g5⟩ :=
       dotOp_raw_accepts M f hfg a k np (rawFits_cast M f t _ hfg.2.2 f1 hfit)
-    refine ⟨g, ?_, hgg, g1, g2, g3, g4⟩
+    refine ⟨g, ?_, hgg, g1, g2, g3, g4, by rw [g5, f5]⟩
     rw [evalF_bin env .dot l _ _ _ hf (evalF_opd env _)]
     simp only [applyBin, forwardOp, hg]
   | dotRF a k r t _ hfit ih =>
-    obtain ⟨f, hf, hfg, f1, _⟩ := ih
-    obtain ⟨g, hg, hgg, g1, g2, g3, g4⟩ :=
+    obtain ⟨f, hf, hfg, f1, _, _, _, f5⟩ := ih
+    obtain ⟨g, hg, hgg, g1, g2, g3, g4, g5⟩ :=
       applyBin_dot_rf env M f hfg a k (rawFits_cast M f t _ hfg.2.2 f1 hfit)
-    exact ⟨g, by rw [evalF_bin env .dot _ r _ _ (evalF_opd env _) hf, hg], hgg, g1, g2, g3, g4⟩
+    exact ⟨g, by rw [evalF_bin env .dot _ r _ _ (evalF_opd env _) hf, hg], hgg, g1, g2, g3, g4, by rw [g5, f5]⟩
   | crossFF l r tl tr m _ _ h3 h3' hm ihl ihr =>
-    obtain ⟨f, hf, hfg, f1, f2, _⟩ := ihl
-    obtain ⟨o, ho, hog, o1, _⟩ := ihr
-    obtain ⟨g, hg, hgg, g1, g2, g3, g4, _⟩ :=
+    obtain ⟨f, hf, hfg, f1, f2, _, _, f5⟩ := ihl
+    obtain ⟨o, ho, hog, o1, _, _, _, o5⟩ := ihr
+    obtain ⟨g, hg, hgg, g1, g2, g3, g4, g5⟩ :=
       crossOp_fld_accepts M hM f o hfg hog (by rw [f1, h3]) (by rw [o1, h3'])
     rw [f2, hm] at g3
     injection g3 with g3
-    refine ⟨g, ?_, hgg, g1, by rw [g2, f2], g3.symm, g4⟩
+    refine ⟨g, ?_, hgg, g1, by rw [g2, f2], g3.symm, g4, by rw [g5, f5, o5]⟩
     rw [evalF_bin env .cross l r _ _ hf ho]
     simp only [applyBin, forwardOp, hg]
   | crossFR l a k np t m _ h3 hfit hm ih =>
-    obtain ⟨f, hf, hfg, f1, f2, _⟩ := ih
-    obtain ⟨g, hg, hgg, g1, g2, g3, g4, _⟩ :=
+    obtain ⟨f, hf, hfg, f1, f2, _, _, f5⟩ := ih
+    obtain ⟨g, hg, hgg, g1, g2, g3, g4, g5⟩ :=
       crossOp_raw_accepts M hM f hfg (by rw [f1, h3]) a k np (rawFits_cast M f t _ hfg.2.2 f1 hfit)
     rw [f2, hm] at g3
     injection g3 with g3
-    refine ⟨g, ?_, hgg, g1, by rw [g2, f2], g3.symm, g4⟩
+    refine ⟨g, ?_, hgg, g1, by rw [g2, f2], g3.symm, g4, by rw [g5, f5]⟩
     rw [evalF_bin env .cross l _ _ _ hf (evalF_opd env _)]
     simp only [applyBin, forwardOp, hg]
   | crossRF a k r t m _ h3 hfit hm ih =>
-    obtain ⟨f, hf, hfg, f1, f2, _⟩ := ih
-    obtain ⟨g, hg, hgg, g1, g2, g3, g4⟩ :=
+    obtain ⟨f, hf, hfg, f1, f2, _, _, f5⟩ := ih
+    obtain ⟨g, hg, hgg, g1, g2, g3, g4, g5⟩ :=
       applyBin_cross_rf env M hM f hfg (by rw [f1, h3]) a k (rawFits_cast M f t _ hfg.2.2 f1 hfit)
     rw [f2, hm] at g3
     injection g3 with g3
-    exact ⟨g, by rw [evalF_bin env .cross _ r _ _ (evalF_opd env _) hf, hg], hgg, g1, by rw [g2, f2], g3.symm, g4⟩
+    exact ⟨g, by rw [evalF_bin env .cross _ r _ _ (evalF_opd env _) hf, hg], hgg, g1, by rw [g2, f2], g3.symm, g4,
+      by rw [g5, f5]⟩
   | shlFF l r tl tr m _ _ hm ihl ihr =>
-    obtain ⟨f, hf, hfg, f1, f2, f3, _⟩ := ihl
-    obtain ⟨o, ho, hog, o1, o2, o3, _⟩ := ihr
-    obtain ⟨g, hg, hgg, g1, g4, g2, g3⟩ := applyBin_shl_ff env M hM f o hfg hog
+    obtain ⟨f, hf, hfg, f1, f2, f3, _, f5⟩ := ihl
+    obtain ⟨o, ho, hog, o1, o2, o3, _, o5⟩ := ihr
+    obtain ⟨g, hg, hgg, g1, g4, g2, g3, g5⟩ := applyBin_shl_ff env M hM f o hfg hog
     rw [f1, o1, f2, o2] at g2
     rw [f1, o1, f3, o3, g2] at g3
-    refine ⟨g, by rw [evalF_bin env .shl l r _ _ hf ho, hg], hgg, by rw [g1, f1, o1], g2, ?_, g4⟩
+    refine ⟨g, by rw [evalF_bin env .shl l r _ _ hf ho, hg], hgg, by rw [g1, f1, o1], g2, ?_, g4, by rw [g5, f5, o5]⟩
     by_cases hc : (dictUpdate tl.vmap tr.vmap).length = tl.nv + tr.nv
     · rw [if_pos hc] at g3 hm
       rw [g3, hm]
@@ -129,26 +129,27 @@ theorem hasTy_sound (env : Env) (M : Mesh) (hM : MeshOk M) (hgood : ∀ f ∈ en
   | angleFF l r tl tr _ _ hn ihl ihr =>
     obtain ⟨f, hf, hfg, f1, _⟩ := ihl
     obtain ⟨o, ho, hog, o1, _⟩ := ihr
-    obtain ⟨g, hg, hgg, g1, g2, g3, g4⟩ := applyBin_angle_ff env M hM f o hfg hog (by rw [f1, o1, hn])
-    exact ⟨g, by rw [evalF_bin env .angle l r _ _ hf ho, hg], hgg, g1, g2, g3, g4⟩
+    obtain ⟨g, hg, hgg, g1, g2, g3, g4, g5⟩ := applyBin_angle_ff env M hM f o hfg hog (by rw [f1, o1, hn])
+    exact ⟨g, by rw [evalF_bin env .angle l r _ _ hf ho, hg], hgg, g1, g2, g3, g4, g5⟩
   | ufuncFF b l r tl tr hb _ _ hd ihl ihr =>
-    obtain ⟨f, hf, hfg, f1, f2, f3, _⟩ := ihl
-    obtain ⟨o, ho, hog, o1, _⟩ := ihr
-    obtain ⟨g, hg, hgg, g1, g2, g3, g4⟩ := applyBin_ufunc_ff env b hb M hM f o hfg hog (by rw [f1, o1]; exact hd)
+    obtain ⟨f, hf, hfg, f1, f2, f3, _, f5⟩ := ihl
+    obtain ⟨o, ho, hog, o1, _, _, _, o5⟩ := ihr
+    obtain ⟨g, hg, hgg, g1, g2, g3, g4, g5⟩ :=
+      applyBin_ufunc_ff env b hb M hM f o hfg hog (by rw [f1, o1]; exact hd)
     exact ⟨g, by rw [evalF_bin env b l r _ _ hf ho, hg],
-      hasMeta_noUnit M g tl hgg (by rw [g1, f1]) (by rw [g2, f2]) (by rw [g3, f3]) g4⟩
+      hasMeta_res M g tl _ hgg (by rw [g1, f1]) (by rw [g2, f2]) (by rw [g3, f3]) g4 (by rw [g5, f5, o5])⟩
   | ufuncFR b l od t hb _ hfit hu ih =>
-    obtain ⟨f, hf, hfg, f1, f2, f3, _⟩ := ih
-    obtain ⟨g, hg, hgg, g1, g2, g3, g4⟩ :=
+    obtain ⟨f, hf, hfg, f1, f2, f3, _, f5⟩ := ih
+    obtain ⟨g, hg, hgg, g1, g2, g3, g4, g5⟩ :=
       applyBin_ufunc_fr env b od hb M hM f hfg (rawFits_cast M f t od hfg.2.2 f1 hfit) hu
     exact ⟨g, by rw [evalF_bin env b l _ _ _ hf (evalF_opd env od), hg],
-      hasMeta_noUnit M g t hgg (by rw [g1, f1]) (by rw [g2, f2]) (by rw [g3, f3]) g4⟩
+      hasMeta_res M g t _ hgg (by rw [g1, f1]) (by rw [g2, f2]) (by rw [g3, f3]) g4 (by rw [g5, f5])⟩
   | ufuncRF b od r t hb _ hfit hu ih =>
-    obtain ⟨f, hf, hfg, f1, f2, f3, _⟩ := ih
-    obtain ⟨g, hg, hgg, g1, g2, g3, g4⟩ :=
+    obtain ⟨f, hf, hfg, f1, f2, f3, _, f5⟩ := ih
+    obtain ⟨g, hg, hgg, g1, g2, g3, g4, g5⟩ :=
       applyBin_ufunc_rf env b hb M hM f hfg od (rawFits_cast M f t od hfg.2.2 f1 hfit) hu
     exact ⟨g, by rw [evalF_bin env b _ r _ _ (evalF_opd env od) hf, hg],
-      hasMeta_noUnit M g t hgg (by rw [g1, f1]) (by rw [g2, f2]) (by rw [g3, f3]) g4⟩
+      hasMeta_res M g t _ hgg (by rw [g1, f1]) (by rw [g2, f2]) (by rw [g3, f3]) g4 (by rw [g5, f5])⟩
 
 /-- `Mesh.allclose` is reflexive for non-negative tolerances -/
 theorem isclose_self (x rtol atol : Rat) (h1 : 0 ≤ rtol) (h2 : 0 ≤ atol) : Region.isclose x x rtol atol = true := by
